@@ -198,7 +198,17 @@ def main(argv=None):
 
     # 3+4: correspondence and runtime legs (escalated to thorough if a proof obligation broke)
     run_tier = "thorough" if (proof_broken and not replay) else tier
-    outdir = os.path.join(BUILD, "cases", prop)
+    # one directory per run, so that two runs of the same check cannot delete each other's files
+    base = os.path.join(BUILD, "cases", prop)
+    os.makedirs(base, exist_ok=True)
+    for old in os.listdir(base):
+        po = os.path.join(base, old)
+        try:
+            if old.startswith("run-") and time.time() - os.path.getmtime(po) > 3 * 3600:
+                shutil.rmtree(po, ignore_errors=True)
+        except OSError:
+            pass
+    outdir = os.path.join(base, "run-%d" % os.getpid())
     timeout = cfg.get("timeout", {}).get(run_tier, 900 if run_tier == "quick" else 5400)
     t1 = time.time()
     meta, fail = run_child(prop, cfg["module"], run_tier, seed, outdir, timeout, inputs=replay)
@@ -303,6 +313,8 @@ def main(argv=None):
     if not replay:
         dump_json(os.path.join(ROOT, "evidence", f"{prop}.json"), ev)
 
+    if not out_lines and not os.environ.get("VERIF_KEEP_CASES"):
+        shutil.rmtree(outdir, ignore_errors=True)       # keep the case files only when something failed
     for l in known_lines:
         print(l)
     for l in out_lines:
